@@ -52,13 +52,12 @@ extern "C" void __wrap__ZN3nfl15fastrandombytesEPhy(unsigned char* r, unsigned l
   __real__ZN3nfl15fastrandombytesEPhy(r, len);
   if (tl_log) tl_log->push_back(len >= 8 ? identify(r, (size_t)len, g_maxn) : -2);
 }
-static void gshare(int T, int R, std::ostringstream& os) {
+static void gshare(int T, int R, size_t LEN, std::ostringstream& os) {
   typedef nfl::FastGaussianNoise<uint8_t, uint32_t, 2> G;
-  const size_t LEN = 200;
   G shared(3.0, 64, 1024);
   std::vector<std::vector<std::vector<long> > > nonces(T, std::vector<std::vector<long> >(R));
   std::vector<std::vector<std::vector<uint32_t> > > outs(T, std::vector<std::vector<uint32_t> >(R, std::vector<uint32_t>(LEN)));
-  g_maxn = (long)T * R * 6 + 16;
+  g_maxn = (long)T * R * (LEN >= 64 ? 6 : 40) + 64;
   std::atomic<int> gate(0);
   std::vector<std::thread> th;
   for (int t = 0; t < T; t++) th.emplace_back([&, t] { gate++; while (gate.load() < T) {} for (int r = 0; r < R; r++) { tl_log = &nonces[t][r]; shared.getNoise(outs[t][r].data(), LEN); tl_log = 0; } });
@@ -103,7 +102,7 @@ int main() {
   std::string line; std::getline(std::cin, line);
   std::istringstream is(line); std::string mode; is >> mode;
   std::ostringstream os;
-  if (mode == "gshare") { int T, R; is >> T >> R; gshare(T, R, os); puts(os.str().c_str()); return 0; }
+  if (mode == "gshare") { int T, R; size_t LEN = 200; is >> T >> R; if (!(is >> LEN)) LEN = 200; gshare(T, R, LEN, os); puts(os.str().c_str()); return 0; }
   if (mode == "stress") {
     int T, R; is >> T >> R;
     std::vector<std::vector<std::vector<unsigned char> > > outs(T, std::vector<std::vector<unsigned char> >(R, std::vector<unsigned char>(16)));
